@@ -10,7 +10,10 @@ def main(tier: str, seed: int) -> int:
     rep.rule = ('MC: every program of TapeVMMC family ctl (all compositions of IF / IF_ELSE both arms / TRY / EXCEPT / '
                 'LOOP / DEF+CALL / EVAL up to the depth bound around RETURN, a raising op, DEF, CALL and marker pushes) '
                 'explored exhaustively by TLC and replayed through run_script comparing executed-instruction sequence, '
-                'final stack, cache, returned flag and exception; traces: seeded generator over the full opcode table '
+                'final stack, cache, returned flag and exception; family alu: every hint-free data instruction (integer arithmetic incl. '
+                'DIV_INT / MOD_INT tape divisors, comparison, bitwise, stack permutation, concat / split, copy, size, logic) on every '
+                'pair of 12 boundary items (empty, 0, 1, 127, 128, 255, padded and two-byte forms) with every boundary operand, '
+                '12,384 programs, replayed; traces: seeded generator over the full opcode table '
                 '(92 ops + NOP codes, nesting <= 4, boundary-biased operands, random caches / limits / flags / plugins / '
                 'contracts), one event per instruction / sub-tape entry / exit, validated step by step by TLC against '
                 'TapeVM.Step. distinct = distinct programs+configs; non-trivial = at least one instruction executed.')
@@ -19,6 +22,7 @@ def main(tier: str, seed: int) -> int:
                        'OP_CHECK_TRANSFER outcome is adopted from the log (contract semantics are the embedder\'s)']
     depth = 2 if tier == 'quick' else 3
     vmcheck.mc_family(rep, 'ctl', depth)
+    vmcheck.mc_family(rep, 'alu', 0)
     if tier != 'quick':
         vmcheck.mc_family(rep, 'cache', 2)
     n = 5000 if tier == 'quick' else 40000
